@@ -55,7 +55,7 @@ def run_case(ctx, res, case, lines, post):
         comp = build()
         for a, b in hist:
             comp.activate_index(a, b)
-    names, pts, kinds = c05.points_for(rng, comp, 12 if ctx.quick else 24)
+    names, pts, kinds = c05.points_for(rng, comp, 14 if ctx.quick else 28)
     in_vars, out_vars = holder['in_vars'], holder['out_vars']
     allg = [list(comp.training_data.x_grids[n]) for n in names]
     widths = [float(d[1]) - float(d[0]) for d in comp.inputs.get_domains().values()]
@@ -79,6 +79,12 @@ def run_case(ctx, res, case, lines, post):
             rows.append([cc.scalar(ov.normalize(np.atleast_1d(np.float64(y[o])))) for o, ov in zip(out_names, out_vars)])
         return rows
 
+    def band_of(k):
+        return band[k]
+
+    def ymax_guess(arr):
+        return max(1.0, float(np.max(np.abs(arr))))
+
     mode = rng.choice(['train', 'test'])
     iset = set(comp.active_set) if mode == 'train' else set(comp.active_set) | set(comp.candidate_set)
     W = cc.ie_weights({tuple(a) + tuple(b) for a, b in iset})
@@ -86,6 +92,32 @@ def run_case(ctx, res, case, lines, post):
     try:
         jac = comp.gradient(X, index_set=mode)
         hes = comp.hessian(X, index_set=mode)
+        # the same points one at a time: node special cases are decided per batch in the code, so a batch that contains
+        # node points can mask errors at the others (and vice versa)
+        jac1 = {o: [] for o in out_names}
+        hes1 = {o: [] for o in out_names}
+        for k in range(len(pts)):
+            Xk = {n: np.array([pts[k][d]]) for d, n in enumerate(names)}
+            jk = comp.gradient(Xk, index_set=mode)
+            hk = comp.hessian(Xk, index_set=mode)
+            for o in out_names:
+                jac1[o].append(np.asarray(jk[o]).reshape(-1))
+                hes1[o].append(np.asarray(hk[o]).reshape(nin, nin))
+        for o in out_names:
+            J = np.asarray(jac[o]).reshape(len(pts), -1)
+            H = np.asarray(hes[o]).reshape(len(pts), nin, nin)
+            for k in range(len(pts)):
+                okj = np.allclose(J[k], jac1[o][k], rtol=1e-7, atol=1e-9 * ymax_guess(J[k]))
+                okh = band_of(k) == 'unstable' or np.allclose(H[k], hes1[o][k], rtol=1e-5, atol=1e-7 * ymax_guess(H[k]))
+                if not (okj and okh):
+                    res.failures.append({'kind': 'derivative-of-a-point-depends-on-the-batch',
+                                         'input': {**case, 'mode': mode, 'point': pts[k], 'output': o,
+                                                   'history': [list(a) + list(b) for a, b in hist]},
+                                         'observed': {'in_batch': [J[k].tolist(), H[k].tolist()],
+                                                      'alone': [jac1[o][k].tolist(), hes1[o][k].tolist()]}})
+        # judge the single-point evaluations against the model / analytic derivatives below
+        jac = {o: np.stack(jac1[o]) for o in out_names}
+        hes = {o: np.stack(hes1[o]) for o in out_names}
     except Exception as e:  # noqa: BLE001
         res.failures.append({'kind': 'gradient-raised', 'input': {**case, 'mode': mode}, 'observed': repr(e)[:300]})
         return
@@ -104,8 +136,7 @@ def run_case(ctx, res, case, lines, post):
     for k, p in enumerate(pts):
         xs = ' '.join(rat_str(v) for v in p)
         for m in range(nin):
-            got = [float(np.asarray(jac[o])[k, ..., m]) if np.asarray(jac[o]).ndim > 1 else float(np.asarray(jac[o])[k])
-                   for o in out_names]
+            got = [float(np.asarray(jac[o]).reshape(len(pts), -1)[k, m]) for o in out_names]
             kinds_m = ' '.join('1' if d == m else '0' for d in range(nin))
             lines.append(f'itp.miscgrad TOL {m} | {xs}'); post.append(('g', case, mode, kinds[k], band[k], p, (m,), got, hlist, ymax / delta[k][m]))
             lines.append(f'itp.miscabs TOL {kinds_m} | {xs}'); post.append(('abs',))
